@@ -366,3 +366,226 @@ func TestC09Storm(t *testing.T) {
 		em.Marker("end", idx)
 	}
 }
+
+// ---------------------------------------------------------------- C13 / C05: surplus replies, then later calls
+
+type surplusResult struct {
+	ids   []int64
+	pairs [][3]int64 // request token, what the caller got (-3 error, -2 pending), answered (1) or not (0)
+}
+
+// surplusScenario: a unary call gets dup replies in ONE burst (the read loop is
+// parked on the full queue when the caller takes the first: the second lands in
+// the queue between the caller's receive and its unregistration), optionally a
+// stream gets messages nobody reads; THEN later calls are started on the same
+// connection, each answered by its own reply (token + 1) or not answered at all;
+// finally the read fails. Every reply token is distinct, so a stale reply
+// delivered to a later call is recognisable.
+func surplusScenario(t *testing.T, dup int, later []string, answered []bool, withStats, withStream bool) (res surplusResult, leaked bool) {
+	leaked = bubble(t, func(t *testing.T) {
+		ep := NewEndpoint("client")
+		var opts []goat.DialOption
+		if withStats {
+			opts = append(opts, goat.WithStatsHandler(&recStats{}))
+		}
+		cc := goat.NewClientConn(ep, "src", "dst", opts...)
+		reply := func(id uint64, tok int64, trailer bool) *Rpc {
+			b, _ := proto.Marshal(&wrapperspb.BytesValue{Value: payloadOf(tok)})
+			r := &Rpc{Id: id, Header: hdr("/verif.Echo/Unary", "dst", "src"), Body: &goatorepo.Body{Data: b}}
+			if trailer {
+				r.Trailer = &goatorepo.Trailer{}
+			}
+			return r
+		}
+		type pend struct {
+			tok  int64
+			out  atomic.Int64
+			done atomic.Bool
+		}
+		invoke := func(tok int64) *pend {
+			p := &pend{tok: tok}
+			p.out.Store(-2)
+			go func() {
+				var out wrapperspb.BytesValue
+				if err := cc.Invoke(context.Background(), "/verif.Echo/Unary", &wrapperspb.BytesValue{Value: payloadOf(tok)}, &out); err != nil {
+					p.out.Store(-3)
+				} else {
+					p.out.Store(tokenOf(out.Value))
+				}
+				p.done.Store(true)
+			}()
+			return p
+		}
+		if withStream {
+			if _, err := cc.NewStream(context.Background(), descBidi, "/verif.Echo/Bidi"); err != nil {
+				t.Fatal(err)
+			}
+			synctest.Wait()
+			sid := ep.WrittenCopy()[0].Id
+			for i := 0; i < 2; i++ { // unread stream messages: one offered by the stream loop, one queued (the read loop stays free)
+				ep.Deliver(reply(sid, int64(7001+i), false))
+			}
+			synctest.Wait()
+		}
+		first := invoke(500)
+		synctest.Wait()
+		ws := ep.WrittenCopy()
+		fid := ws[len(ws)-1].Id
+		for i := 0; i < dup; i++ { // one burst: no quiescence in between
+			ep.Deliver(reply(fid, int64(9001+i), true))
+		}
+		synctest.Wait()
+		var all []*pend
+		var ans []bool
+		for i, kind := range later {
+			tok := int64(600 + 10*i)
+			n0 := len(ep.WrittenCopy())
+			if kind == "unary" {
+				p := invoke(tok)
+				synctest.Wait()
+				all = append(all, p)
+				ans = append(ans, answered[i])
+				if answered[i] {
+					w := ep.WrittenCopy()[n0]
+					ep.Deliver(reply(w.Id, tok+1, true))
+					synctest.Wait()
+				}
+			} else {
+				p := &pend{tok: tok}
+				p.out.Store(-2)
+				cs, err := cc.NewStream(context.Background(), descBidi, "/verif.Echo/Bidi")
+				if err != nil {
+					p.out.Store(-3)
+					all = append(all, p)
+					ans = append(ans, answered[i])
+					continue
+				}
+				go func() {
+					var m wrapperspb.BytesValue
+					if err := cs.RecvMsg(&m); err != nil {
+						p.out.Store(-3)
+					} else {
+						p.out.Store(tokenOf(m.Value))
+					}
+					p.done.Store(true)
+				}()
+				synctest.Wait()
+				all = append(all, p)
+				ans = append(ans, answered[i])
+				if answered[i] {
+					w := ep.WrittenCopy()[n0]
+					ep.Deliver(reply(w.Id, tok+1, false))
+					synctest.Wait()
+				}
+			}
+		}
+		ep.FailRead(errInjected)
+		synctest.Wait()
+		for _, w := range ep.WrittenCopy() {
+			if w.GetReset_() == nil {
+				res.ids = append(res.ids, int64(w.Id))
+			}
+		}
+		a := int64(0)
+		if dup > 0 {
+			a = 1
+		}
+		res.pairs = append(res.pairs, [3]int64{first.tok, first.out.Load(), a})
+		for i, p := range all {
+			a := int64(0)
+			if ans[i] {
+				a = 1
+			}
+			res.pairs = append(res.pairs, [3]int64{p.tok, p.out.Load(), a})
+		}
+	})
+	return
+}
+
+func surplusCases(f func(idx, dup int, later []string, answered []bool, withStats, withStream bool)) {
+	idx := 0
+	laters := [][]string{{"unary"}, {"unary", "unary"}, {"stream", "unary"}, {"unary", "stream", "unary"}}
+	for dup := 1; dup <= 3; dup++ {
+		for _, later := range laters {
+			for mask := 0; mask < 1<<len(later); mask++ {
+				ans := make([]bool, len(later))
+				for i := range later {
+					ans[i] = mask&(1<<i) != 0
+				}
+				for _, st := range []bool{false, true} {
+					for _, ws := range []bool{false, true} {
+						f(idx, dup, later, ans, st, ws)
+						idx++
+					}
+				}
+			}
+		}
+	}
+}
+
+// TestC13Surplus: honesty after surplus replies. The first call got `dup`
+// replies (9001..; it must report the first), a later answered call must report
+// exactly its own reply (token + 1), an unanswered one must fail at the read
+// failure: never a success with data addressed to another id.
+func TestC13Surplus(t *testing.T) {
+	em := NewEmitter()
+	defer em.Close()
+	surplusCases(func(idx, dup int, later []string, answered []bool, withStats, withStream bool) {
+		if !want(idx) {
+			return
+		}
+		em.Marker("begin", idx)
+		res, leaked := surplusScenario(t, dup, later, answered, withStats, withStream)
+		var terms []string
+		for i, p := range res.pairs {
+			want := p[0] + 1
+			if i == 0 {
+				want = 9001
+			}
+			terms = append(terms, fmt.Sprintf("(%d, %s, %d)", want, coqZ(p[1]), p[2]))
+		}
+		tags := []string{fmt.Sprintf("surplus-replies=%d", dup), fmt.Sprintf("later=%v", later), fmt.Sprintf("stats=%v", withStats), fmt.Sprintf("unread-stream=%v", withStream)}
+		if leaked {
+			tags = append(tags, "leaked-at-end")
+		}
+		em.Emit(Rec{Idx: idx, Kind: "c13-surplus", Desc: map[string]any{"dup": dup, "later": later, "answered": answered, "pairs": res.pairs},
+			Tags: tags, Coq: "C13Surplus " + coqList(terms)})
+		em.Marker("end", idx)
+	})
+}
+
+// TestC05Surplus: the same histories judged as isolation: ids pairwise distinct,
+// every answered caller got the reply to ITS OWN request.
+func TestC05Surplus(t *testing.T) {
+	em := NewEmitter()
+	defer em.Close()
+	surplusCases(func(idx, dup int, later []string, answered []bool, withStats, withStream bool) {
+		if !want(idx) {
+			return
+		}
+		em.Marker("begin", idx)
+		res, leaked := surplusScenario(t, dup, later, answered, withStats, withStream)
+		sort.Slice(res.ids, func(a, b int) bool { return res.ids[a] < res.ids[b] })
+		// distinct ids only: a stream writes nothing but its open envelope here
+		var ids []string
+		for i, v := range res.ids {
+			if i == 0 || v != res.ids[i-1] {
+				ids = append(ids, fmt.Sprint(v))
+			}
+		}
+		var pairs []string
+		for i, p := range res.pairs {
+			if i == 0 || p[2] == 0 {
+				continue // the first call's reply tokens are the peer's own numbering; unanswered calls have no reply
+			}
+			pairs = append(pairs, fmt.Sprintf("(%d, %s)", p[0], coqZ(p[1])))
+		}
+		tags := []string{fmt.Sprintf("surplus-replies=%d", dup), fmt.Sprintf("later=%v", later)}
+		if leaked {
+			tags = append(tags, "leaked-at-end")
+		}
+		em.Emit(Rec{Idx: idx, Kind: "c05-surplus", Desc: map[string]any{"dup": dup, "later": later, "answered": answered, "pairs": res.pairs, "ids": res.ids},
+			Tags: tags, Coq: fmt.Sprintf("C05Free %d %s %s", len(ids), coqList(ids), coqList(pairs))})
+		em.Marker("end", idx)
+	})
+}
